@@ -94,8 +94,19 @@ Qed.
 
 (* machine_refines_irsem for every compiled program *)
 Theorem compiled_machine_refines_irsem p ir : compile_program p = Some ir ->
-  forall d name args nx h, wf h ->
-  exists N itf, forall n k, N <= n -> length (fst (query d ir name args (mkst h nx))) < k ->
+  forall d name args nx h k, wf h ->
+  exists N hf itf, forall n, N <= n ->
     m_nexts ir nofacts nouser n d k h (m_query ir nofacts nouser name args nx) =
-    Some (h, itf, map sto (fst (query d ir name args (mkst h nx))), rend (snd (query d ir name args (mkst h nx)))).
+    Some (hf, itf, map sto (firstn k (fst (query d ir name args (mkst h nx)))),
+          if Nat.leb k (length (fst (query d ir name args (mkst h nx)))) then RYield
+          else rend (snd (query d ir name args (mkst h nx))))
+    /\ (length (fst (query d ir name args (mkst h nx))) < k -> hf = h).
 Proof. intros H. apply machine_refines_irsem. eapply compiled_ir_ok; eauto. Qed.
+
+Theorem compiled_machine_refines_irsem_fuel p ir : compile_program p = Some ir ->
+  forall d name args nx h k n hf itf ys r, wf h ->
+  m_nexts ir nofacts nouser n d k h (m_query ir nofacts nouser name args nx) = Some (hf, itf, ys, r) ->
+  ys = map sto (firstn k (fst (query d ir name args (mkst h nx)))) /\
+  r = (if Nat.leb k (length (fst (query d ir name args (mkst h nx)))) then RYield
+       else rend (snd (query d ir name args (mkst h nx)))).
+Proof. intros H. intros. eapply machine_refines_irsem_fuel; eauto. eapply compiled_ir_ok; eauto. Qed.
